@@ -2,6 +2,7 @@
 import collections
 import networkx as nx
 from .. import graphs, pathsoracle as po
+from ..universes import observe_bundle
 from ..common import Violation
 from . import pathbase
 
@@ -75,6 +76,7 @@ def eval_graph(c, sub):
             if not directed:
                 Pp.add((nodes[j], nodes[i], T[t]))
             pids = sorted(set(x[2] for x in Pp))
+            observe_bundle(H)          # read-only queries (also at idle instants) between the steps: they must not matter
             for u in list(H.nodes()):
                 cnt['queries'] += 1
                 cnt['incremental_queries'] += 1
